@@ -2,7 +2,12 @@
 
 Code under test:  Rvectors(lattice, shifts_left_red=wcc).set_Rvec(mp_grid, ws_tolerance) ->
 set_fft_q_to_R(kpt_red = mesh in any order, individual points shifted by integers) -> q_to_R(X_q)
-and System_R.do_ws_dist(mp_grid) (re-mapping of an existing real-space model).
+and System_R.do_ws_dist(mp_grid) (re-mapping of an existing real-space model), and get_system_w90(WannierData).
+
+Genuine defect found with this check (see scratch_reports/C01_ws_search_window.diff): WignerSeitz searches only
++-3 super-cells and never verifies that the nearest replica is inside; for skewed cells / anisotropic meshes / distant
+centres the selected replicas are not the nearest ones and, because the window is not inversion symmetric for
+residues r != 0, the result violates X(-R) = X(R)^dagger (bucket *:hermiticity-search-window).
 
 Oracles (all written here / in vlib/wsref.py, no wannierberri code):
  (i)   explicit Bloch sum  sum_R exp(2 pi i q.R) X(R)  at every mesh point == input X(q)          (1e-10 rel)
@@ -28,12 +33,15 @@ from vlib.util import fl, reldiff, rng_of, crandom, maxabs
 from vlib import wbsys, wsref
 
 PROPERTY_ID = "C01"
-RULE = ("lattice from 11 families (+rotation, optionally described by a sheared non-reduced cell), Gamma-centred mesh in [1..5]^3 with <=60 points listed in a drawn "
-        "permutation, optionally every k-point shifted by its own integer vector; 1-4 Wannier centres of six classes "
-        "(zero, exact fractions, generic, outside the home cell, coinciding groups, WS-boundary forcing = differences "
-        "that are multiples of N_i/2, N_i/3, optionally displaced by 3e-6..3e-3); ws_tolerance in {1e-5,1e-3,1e-2,-1e-3}; Hermitian X(q) of Cartesian "
-        "rank 0/1/2; fftlib fftw/numpy.  non-trivial = some replica has Ndegen>1 (Wigner-Seitz boundary) or a centre "
-        "lies outside the home cell or the mesh order is permuted")
+RULE = ("lattice from 11 families (+rotation, optionally described by a sheared non-reduced cell), Gamma-centred mesh "
+        "in [1..5]^3 with <=60 points listed in a drawn permutation, optionally every k-point shifted by its own "
+        "integer vector; 1-4 Wannier centres of six classes (zero, exact fractions, generic, outside the home cell, "
+        "coinciding groups, WS-boundary forcing = differences that are multiples of N_i/2, N_i/3, optionally displaced "
+        "by 3e-6..3e-3); ws_tolerance in {1e-5,1e-3,1e-2,-1e-3}; Hermitian X(q) of Cartesian rank 0/1/2; fftlib "
+        "fftw/numpy (sub ws); random Hermitian real-space models re-mapped by do_ws_dist (sub remap); synthetic "
+        "checkpoint + eigenvalues through get_system_w90 (sub w90).  non-trivial = some replica has Ndegen>1 "
+        "(Wigner-Seitz boundary) or a centre lies outside the home cell or the mesh order is permuted (remap: or "
+        "R-vectors collide modulo the mesh)")
 ASSUMPTIONS = ["Bloch sums carry no Wannier-centre phases (convention of the code, cf. vlib/wbsys.Model.Xk)",
                "centre differences are compared after rounding to ceil(-log10(tol))+1 decimals (8 for negative tol), "
                "as documented in Rvectors.set_Rvec; the brute-force minimisation uses the same rounded difference",
@@ -384,8 +392,6 @@ def remap_case_st(draw):
 def check_remap(case):
     model = wbsys.make_model(case["model"])
     mp = np.array(case["mp"], dtype=int)
-    N = int(np.prod(mp))
-    nw = model.nw
     L = model.lattice
     s = wbsys.to_system(model)
     mesh = wbsys.mp_points(mp)
